@@ -209,9 +209,18 @@ def gen_qplan(rng, nchunks):
     if nchunks <= 0:
         return {}
     plan = {}
+    if nchunks <= 64 and rng.random() < 0.3:
+        # the heaviest plan: every query after every chunk
+        return {str(i): list(imgsim.QUERIES) for i in range(nchunks)}
     for _ in range(rng.randint(1, 3)):
-        idx = rng.randrange(nchunks)
-        plan[str(idx)] = rng.sample(imgsim.QUERIES, rng.randint(1, 3))
+        # half of the queries right after one of the first chunks (the
+        # moment an inspector has just become complete), half anywhere
+        idx = rng.randrange(min(nchunks, 3)) if rng.random() < 0.5 \
+            else rng.randrange(nchunks)
+        qs = rng.sample(imgsim.QUERIES, rng.randint(1, 3))
+        if 'safety' not in qs and rng.random() < 0.5:
+            qs.append('safety')
+        plan[str(idx)] = qs
     return plan
 
 
@@ -244,7 +253,8 @@ class C01(Check):
         'a clean batch is evidence, not proof: schedules x contents are '
         'sampled',
     ]
-    FAULT_KINDS = ('empty_chunk', 'truncated_stream', 'field_mutation',
+    FAULT_KINDS = ('empty_chunk', 'short_read', 'truncated_stream',
+                   'field_mutation',
                    'inspector_error_genuine', 'query_mid_stream',
                    'trailing_data')
     PROBES = ('several_regions_completed_in_one_chunk', 'single_chunk',
@@ -283,7 +293,9 @@ class C01(Check):
                 order = list(F.FORMATS)
                 orng.shuffle(order)
                 s['order'] = order
-            if qrng.random() < 0.4:
+            if mode == 'wfile':
+                s['ask'] = core.weighted(orng, imgsim.ASK_MODES)
+            if qrng.random() < (0.7 if fam == 'boundary' else 0.4):
                 s['q'] = gen_qplan(qrng, streams.n_chunks(r))
             scheds.append(s)
         return {'content': rec, 'cls': cls, 'scheds': scheds}
@@ -324,6 +336,8 @@ class C01(Check):
             bump(stats['families'], s['fam'].split('(')[0] + '/' + s['mode'])
             if 0 in sizes:
                 bump(fa, 'empty_chunk', sizes.count(0))
+            if s.get('ask'):
+                bump(fa, 'short_read', len(sizes))
             if len([x for x in sizes if x]) <= 1:
                 bump(pr, 'single_chunk')
             res = self._run_sched(data, s, sizes, True, log)
@@ -412,14 +426,16 @@ class C01(Check):
         else:
             pers = 'iter' if s['mode'] == 'witer' else 'file'
             r = imgsim.drive_wrapper(data, sizes, pers, order=s.get('order'),
-                                     wq=set(qp) if qp else None)
-            if r['error']:
-                raise core.HarnessError('wrapper raised %r' % (r['error'],))
-            if b''.join(r['got']) != data:
-                raise core.HarnessError('wrapper did not pass the stream')
+                                     wq=qp if qp else None,
+                                     ask=s.get('ask'))
+            # a wrapper that raises or drops bytes is C06's subject; here it
+            # is simply part of what this schedule concluded, so that a
+            # schedule-dependent failure shows up as a disagreement
             out = {'per': r['per'], 'errors': {}, 'region_bad':
-                   r['region_bad'], 'wlevel': [r['format'], r['formats']]}
-        log.add('sched', s['mode'], s['fam'], len(sizes),
+                   r['region_bad'],
+                   'wlevel': [r['format'], r['formats'], r['error'],
+                              b''.join(r['got']) == data]}
+        log.add('sched', s['mode'], s['fam'], s.get('ask'), len(sizes),
                 sorted((k, imgsim._vt(v)) for k, v in out['per'].items()),
                 out['wlevel'], len(out['region_bad']))
         return out
@@ -449,7 +465,10 @@ class C01(Check):
             return None
         data, _info = F.build(case['content'])
         insp = v['detail'].get('inspector')
-        if v['cls'] in ('verdict_disagree', 'query_side_effect'):
+        if v['cls'] == 'verdict_disagree':
+            # F1 / F3 are about the CHUNKING; a query that changes the
+            # verdict under one and the same chunking is never a known
+            # finding
             if insp == 'vmdk' and not data.startswith(b'KDMV'):
                 return 'F1'
             if insp == 'wrapper' and F.is_texty_prefix(data):
@@ -480,6 +499,10 @@ class C01(Check):
             if s.get('q'):
                 c = copy.deepcopy(case)
                 del c['scheds'][j]['q']
+                yield c
+            if s.get('ask'):
+                c = copy.deepcopy(case)
+                del c['scheds'][j]['ask']
                 yield c
             if s['mode'] != 'bare':
                 c = copy.deepcopy(case)
